@@ -258,16 +258,43 @@ func (c *scriptConn) SetWriteDeadline(t time.Time) error { return nil }
 type tconn struct {
 	c      *scriptConn
 	closed atomic.Bool
+	sp     stream.PackageStreamer // set in the `bridgereal` cases: the forwarder is built from the stream's reader/writer
 }
 
-func (t *tconn) GetConnectionID() string           { return "verif-target" }
-func (t *tconn) GetClientID() int64                { return 2 }
-func (t *tconn) GetMappingID() string              { return "m" }
-func (t *tconn) GetTunnelID() string               { return "t" }
-func (t *tconn) GetStream() stream.PackageStreamer { return nil }
-func (t *tconn) GetNetConn() net.Conn              { return t.c }
-func (t *tconn) Close() error                      { t.closed.Store(true); return t.c.Close() }
-func (t *tconn) IsClosed() bool                    { return t.closed.Load() }
+// realCC is the cloud control of the `bridgereal` cases: one mapping with the case's bandwidth limit.
+type realCC struct{ limit int64 }
+
+func (c *realCC) GetPortMapping(id string) (*models.PortMapping, error) {
+	m := &models.PortMapping{ID: id, ListenClientID: 1, TargetClientID: 2}
+	m.Config.BandwidthLimit = c.limit
+	return m, nil
+}
+func (c *realCC) UpdatePortMappingStats(string, *stats.TrafficStats) error { return nil }
+func (c *realCC) GetClientPortMappings(int64) ([]*models.PortMapping, error) {
+	return nil, nil
+}
+func (c *realCC) TouchClient(int64)            {}
+func (c *realCC) DisconnectClient(int64) error { return nil }
+func (c *realCC) DisconnectClientIfMatch(int64, string, string) (bool, error) {
+	return false, nil
+}
+func (c *realCC) EnsureClientOnline(int64, string, string, string, string, string) error {
+	return nil
+}
+
+func (t *tconn) GetConnectionID() string { return "verif-target" }
+func (t *tconn) GetClientID() int64      { return 2 }
+func (t *tconn) GetMappingID() string    { return "m" }
+func (t *tconn) GetTunnelID() string     { return "t" }
+func (t *tconn) GetStream() stream.PackageStreamer {
+	if t.sp != nil {
+		return t.sp
+	}
+	return nil
+}
+func (t *tconn) GetNetConn() net.Conn { return t.c }
+func (t *tconn) Close() error         { t.closed.Store(true); return t.c.Close() }
+func (t *tconn) IsClosed() bool       { return t.closed.Load() }
 
 var bridgeSeq atomic.Int64
 
@@ -278,7 +305,7 @@ func b2s(b bool) string {
 	return "0"
 }
 
-func runBridge(lim string, src, tgt []readEv, sw, tw []writeEv, stall bool) string {
+func runBridge(lim string, src, tgt []readEv, sw, tw []writeEv, stall, realPath bool) string {
 	res := make(chan string, 1)
 	go func() {
 		defer func() {
@@ -298,13 +325,25 @@ func runBridge(lim string, src, tgt []readEv, sw, tw []writeEv, stall bool) stri
 		id := fmt.Sprintf("verif-tunnel-%d", bridgeSeq.Add(1))
 		var br *session.TunnelBridge
 		var cc *stallCC
-		if stall {
+		var tsp stream.PackageStreamer
+		if realPath {
+			// the production path: SessionManager.startSourceBridge with a cloud control, both ends attached
+			// through real StreamProcessors (forwarders built from the streams' reader/writer)
+			sm.SetCloudControl(&realCC{limit: limitOf(lim)})
+			ssp := stream.NewStreamProcessor(sc, sc, ctx)
+			tsp = stream.NewStreamProcessor(tc, tc, ctx)
+			if err := sm.VerifStartSourceBridgeStream(id, "verif-mapping", sc, ssp); err != nil {
+				res <- "start-failed " + strings.ReplaceAll(err.Error(), " ", "_")
+				return
+			}
+			br = sm.VerifGetBridge(id)
+		} else if stall {
 			cc = &stallCC{release: make(chan struct{})}
 			br = sm.VerifStartBridgeCC(id, "verif-mapping", sc, limitOf(lim), cc)
 		} else {
 			br = sm.VerifStartBridge(id, "", sc, limitOf(lim))
 		}
-		br.SetTargetConnection(&tconn{c: tc})
+		br.SetTargetConnection(&tconn{c: tc, sp: tsp})
 		cds, stalled := "1", "0"
 		if stall {
 			// wait until the final traffic report is inside the (stalled) backend, or the bridge is gone
@@ -459,12 +498,12 @@ func execCase(out *vc.Out, caseStr string) {
 		out.Case(caseStr, runCloseRace(k), caseStr)
 	case "reattach", "reattachfree":
 		execReattach(out, caseStr, toks)
-	case "bridge", "bridgestall":
+	case "bridge", "bridgestall", "bridgereal":
 		src, i := parseReads(toks, 3, true)
 		tgt, i := parseReads(toks, i, true)
 		sw, i := parseWrites(toks, i)
 		tw, _ := parseWrites(toks, i)
-		obs := runBridge(toks[2], src, tgt, sw, tw, toks[0] == "bridgestall")
+		obs := runBridge(toks[2], src, tgt, sw, tw, toks[0] == "bridgestall", toks[0] == "bridgereal")
 		key := caseStr
 		if len(key) > 200 {
 			key = key[:200] + strconv.Itoa(len(caseStr))
@@ -655,9 +694,13 @@ func gen(out *vc.Out, r *vc.Rand, thorough bool) {
 			tw = genWrites(r, out, ns, true)
 		}
 		kind := "bridge"
-		if r.Intn(6) == 0 { // the statistics backend stalls during the final traffic report
+		switch r.Intn(6) {
+		case 0: // the statistics backend stalls during the final traffic report
 			kind = "bridgestall"
 			out.Count("bridge:stats-backend-stalled")
+		case 1, 2: // the production path: real startSourceBridge, stream-backed forwarders
+			kind = "bridgereal"
+			out.Count("bridge:real-start-path")
 		}
 		execCase(out, kind+" lim "+lim+" "+fmtReads("src", src, true)+" "+fmtReads("tgt", tgt, true)+" "+fmtWrites("sw", sw)+" "+fmtWrites("tw", tw))
 	}
